@@ -183,6 +183,8 @@ impl<T> Queue<T> {
             crate::verif::point(crate::verif::site::SPMC_PUSH_NEWBLOCK, self as *const _ as usize);
             tail.next.store(new_tail, Ordering::Release);
             self.tail.block.store(new_tail, Ordering::Relaxed);
+            #[cfg(may_verif)]
+            crate::verif::point(crate::verif::site::SPMC_PUSH_BLOCK_SET, self as *const _ as usize);
         }
 
         // commit the push
